@@ -270,10 +270,83 @@ TRUSTED += ["protocol part (Properties_C06_slane.v, lib/props/c06_slane.py): " +
 ASSUMPTIONS += list(c06_slane.ASSUMPTIONS)
 
 
+SYNCSUSP_WHAT = ("a dispatch_sync item queued behind an item that called dispatch_suspend started before dispatch_resume: "
+                 "round %d variant %s (%d of %d queued callers)")
+
+
+def run_syncsusp(rounds, first):
+    """harness/c06_syncsusp.c (public API) on rounds first .. first+rounds-1. returns (mismatches, failures, rounds judged)"""
+    exe, msg = common.build_harness("c06_syncsusp", ["c06_syncsusp.c"], whitebox=False)
+    if exe is None:
+        return [{"what": "harness build failed (c06_syncsusp)", "detail": {"message": msg}}], [], 0
+    argv = [str(rounds), str(first)]
+    r = common.run([exe] + argv, timeout=300)
+    mism, fails, judged = [], [], 0
+    for l in r.stdout.split("\n"):
+        t = l.split()
+        if len(t) >= 6 and t[0] == "R":
+            judged += 1
+            rd, variant, early, nw, nran = int(t[1]), t[2], int(t[3]), int(t[4]), int(t[5])
+            if early:
+                fails.append({"key": "syncsusp:round%d:%s" % (rd, variant), "what": SYNCSUSP_WHAT % (rd, variant, nran, nw),
+                              "round": rd, "variant": variant, "argv": ["1", str(rd)]})
+    if r.returncode != 0 or judged != rounds:
+        hang = [l for l in r.stdout.split("\n") if l.startswith("HANG")]
+        mism.append({"what": "harness/c06_syncsusp.c did not finish (%s): a suspend from a synchronously run item with dispatch_sync "
+                             "callers queued behind it, then a resume, made the library hang or crash"
+                             % (hang[0] if hang else "exit code %d, %d of %d rounds printed" % (r.returncode, judged, rounds)),
+                     "detail": {"rc": r.returncode, "argv": argv, "stdout": r.stdout[-600:], "stderr": r.stderr[-600:]}})
+    return mism, fails, judged
+
+
+def correspond_syncsusp(ctx):
+    rounds = 18 if ctx.tier == "quick" else 90
+    mism, fails, judged = run_syncsusp(rounds, 0)
+    return {"evaluations": judged, "distinct_nontrivial": min(judged, 9),
+            "rule": "harness/c06_syncsusp.c, public API: per round one serial queue; an item submitted with dispatch_sync_f / "
+                    "dispatch_barrier_sync_f / dispatch_async_and_wait_f (round % 3) starts 1..3 threads that call dispatch_sync_f on "
+                    "the same queue, lets them park, calls dispatch_suspend and returns; none of the queued callers' items may have "
+                    "started 60 ms later (before dispatch_resume); after the resume all of them must run (20 s no-progress watchdog); "
+                    "evaluations = rounds judged",
+            "samples": [{"round": 0, "variant": "sync", "waiters": 1}, {"round": 7, "variant": "barrier_sync", "waiters": 3}],
+            "distribution": {"rounds": judged, "variants": 3, "waiters": "1..3"},
+            "mismatches": mism[:20], "failures": fails[:20]}
+
+
+def replay_syncsusp(ctx, obj):
+    """re-runs the recorded rounds of harness/c06_syncsusp.c on the current build.
+    rc 1: a recorded entry fails again; 0: none does; 2: an entry carries no argv"""
+    entries = [("failure", f) for f in obj.get("failures", [])]
+    for b in obj.get("broken", []):
+        d = b.get("detail") if isinstance(b, dict) else None
+        entries.append(("mismatch", d if isinstance(d, dict) else {"what": str(b)}))
+    reproduced = unexecutable = 0
+    for kind, e in entries:
+        print("recorded %s: %s" % (kind, e.get("what")))
+        argv = e.get("argv") or (e.get("detail") or {}).get("argv")
+        if not argv or len(argv) != 2:
+            print("  carries no argv: nothing to execute; only a full ./check re-establishes it")
+            unexecutable += 1
+            continue
+        mism, fails, judged = run_syncsusp(int(argv[0]), int(argv[1]))
+        again = [f for f in fails if f.get("key") == e.get("key")] if kind == "failure" else mism
+        if again:
+            reproduced += 1
+            print("  REPRODUCES on the current build (c06_syncsusp %s): %s" % (" ".join(argv), again[0]["what"][:400]))
+        else:
+            print("  does not reproduce (c06_syncsusp %s: %d round(s) judged, %d other failures, %d mismatches)"
+                  % (" ".join(argv), judged, len(fails), len(mism)))
+    if not entries:
+        print("the replay file names nothing for the syncsusp part")
+        return 2
+    return 1 if reproduced else (2 if unexecutable else 0)
+
+
 def correspond(ctx):
     return lanes.merge([lanes.run_part("sequential", correspond_seq, ctx),
-                        lanes.run_part("slane", lambda c: c06_slane.correspond(c, tag="c06_slane"), ctx)])
+                        lanes.run_part("slane", lambda c: c06_slane.correspond(c, tag="c06_slane"), ctx),
+                        lanes.run_part("syncsusp", correspond_syncsusp, ctx)])
 
 
 def replay(ctx, obj):
-    return lanes.replay_parts(ctx, obj, {"sequential": replay_seq, "slane": c06_slane.replay})
+    return lanes.replay_parts(ctx, obj, {"sequential": replay_seq, "slane": c06_slane.replay, "syncsusp": replay_syncsusp})
